@@ -194,8 +194,17 @@ class InlineTranslator:
                 != replace_cond.atom.symbol.arguments[hv_pos]  # pylint: disable=undefined-loop-variable
             ):
                 return atom
+            # the weight disappears, it may only occur as the weight and inside the replaced literal
+            if sum(map(lambda x: x == replace_elem.terms[0], collect_ast(replace_elem, "Variable"))) != 2:
+                return atom
             # replace headrule body aggregate with inlined version of the conditions
             new_elements = self.compute_new_body_elements(rule, replace_cond, replace_elem, agg, atom, unique_vars)
+            # the new tuples have to stay different from the tuples of all other elements
+            for new_elem in new_elements:
+                for other in rest_elems:
+                    if potentially_unifying_sequence(other.terms, new_elem.terms):
+                        log.info(f"Cannot inline {str(hpred)} into {str(atom)} as the new tuples are not unique.")
+                        return atom
             return atom.update(function=result_function, elements=rest_elems + new_elements)
         return atom
 
